@@ -135,6 +135,18 @@ def run(prop: str, tier: str, seed: int) -> int:
             c = cases[-1]
             rep.samples.append({"family": "random", "n": n, "max_entry": hi, "dtype": c["dtype"], "sym": c["sym"],
                                 "first_tour": c["tours"][0]})
+    # many cities: tour and index storage beyond the 8-bit ranges
+    for n in ([129, 257] if tier == "quick" else [127, 128, 129, 255, 256, 257, 400]):
+        M = ts.random_matrix(rng, n, rng.choice([5, 50, 40000]), rng.random() < 0.5)
+        tours = []
+        for _ in range(3):
+            p = list(range(n))
+            rng.shuffle(p)
+            tours.append(p)
+        tours.append(list(range(n - 1, -1, -1)))
+        cases.append(record(f"many-cities-{n}", M, ts.make_instance(M), tours))
+        rep.family("many-cities(127..400)", len(tours), len(tours))
+        rep.nontrivial += len(tours)
     # shipped
     I = ts.mods()["Instance"]
     names = [nm for nm in I.list_resources() if I.from_resource(nm).n_cities <= (60 if tier == "quick" else 130)] \
